@@ -16,7 +16,7 @@ open SoyVerif SoyVerif.Model SoyVerif.Model.Lex SoyVerif.Model.PrintTokens SoyVe
 open SoyVerif.Lemmas.ParserToks
 
 /-- what may follow an expression in printed text: nothing, a space, `)`, `]` or `,` -/
-def Closer (rest : Bytes) : Prop := rest = [] ∨ ∃ b s, rest = b :: s ∧ (b = 32 ∨ b = 41 ∨ b = 93 ∨ b = 44)
+def Closer (rest : Bytes) : Prop := rest = [] ∨ ∃ b s, rest = b :: s ∧ (b = 32 ∨ b = 41 ∨ b = 93 ∨ b = 44 ∨ b = 124 ∨ b = 125)
 
 /-- … or, after a data-ref key, the next access: `.`, `?`, `[` -/
 def AccCloser (rest : Bytes) : Prop := Closer rest ∨ ∃ b s, rest = b :: s ∧ (b = 46 ∨ b = 63 ∨ b = 91)
@@ -25,18 +25,20 @@ theorem closer_nil : Closer [] := Or.inl rfl
 theorem closer_sp (s : Bytes) : Closer (32 :: s) := Or.inr ⟨32, s, rfl, Or.inl rfl⟩
 theorem closer_rp (s : Bytes) : Closer (41 :: s) := Or.inr ⟨41, s, rfl, Or.inr (Or.inl rfl)⟩
 theorem closer_rb (s : Bytes) : Closer (93 :: s) := Or.inr ⟨93, s, rfl, Or.inr (Or.inr (Or.inl rfl))⟩
-theorem closer_comma (s : Bytes) : Closer (44 :: s) := Or.inr ⟨44, s, rfl, Or.inr (Or.inr (Or.inr rfl))⟩
+theorem closer_comma (s : Bytes) : Closer (44 :: s) := Or.inr ⟨44, s, rfl, Or.inr (Or.inr (Or.inr (Or.inl rfl)))⟩
+theorem closer_pipe (s : Bytes) : Closer (124 :: s) := Or.inr ⟨124, s, rfl, Or.inr (Or.inr (Or.inr (Or.inr (Or.inl rfl))))⟩
+theorem closer_rbrace (s : Bytes) : Closer (125 :: s) := Or.inr ⟨125, s, rfl, Or.inr (Or.inr (Or.inr (Or.inr (Or.inr rfl))))⟩
 
 theorem closer_wordEnd {rest : Bytes} (h : Closer rest) : WordEnd rest := by
   rcases h with rfl | ⟨b, s, rfl, hb⟩
   · trivial
-  · rcases hb with rfl | rfl | rfl | rfl <;> exact ⟨by decide, by decide⟩
+  · rcases hb with rfl | rfl | rfl | rfl | rfl | rfl <;> exact ⟨by decide, by decide⟩
 
 theorem closer_numEnd {rest : Bytes} (h : Closer rest) : NumEnd rest := by
   refine ⟨closer_wordEnd h, ?_⟩
   rcases h with rfl | ⟨b, s, rfl, hb⟩
   · simp
-  · rcases hb with rfl | rfl | rfl | rfl <;> simp
+  · rcases hb with rfl | rfl | rfl | rfl | rfl | rfl <;> simp
 
 theorem accCloser_wordEnd {rest : Bytes} (h : AccCloser rest) : WordEnd rest := by
   rcases h with h | ⟨b, s, rfl, hb⟩
